@@ -68,7 +68,13 @@ def code_lines(path):
             in_comment = '*/' not in s
             continue
         if s.startswith('#[cfg(test)]'):
-            in_test = True
+            # a test module ends the code of the file; a single cfg(test) item in the middle is skipped on its own
+            nxt = next((x.strip() for x in src[i + 1:] if x.strip() and not x.strip().startswith(('///', '//', '#['))), '')
+            if nxt.startswith(('mod ', 'pub mod ', 'pub(crate) mod ')):
+                in_test = True
+            else:
+                skip_block = 1
+            continue
         if in_test:
             continue
         if s.startswith('#[cfg(simple_dns_verif)]') or s.startswith('#[cfg(all(simple_dns_verif'):
@@ -112,6 +118,16 @@ def gen(per_file, seed, only=None):
                 for nn in ({n + 1, max(n - 1, 0)} - {n}):
                     new = code[:m.start()] + str(nn) + code[m.end():]
                     cands.append({'file': rel, 'line': i + 1, 'orig': l, 'new': new + l[len(code):], 'op': f'literal {n} -> {nn}'})
+            # bounds of literal ranges (`get(4..6)`, `[..2]`): the integer rule above skips digits next to a dot
+            for m in re.finditer(r'(\d+)?\.\.(=?)(\d+)', code):
+                for grp, delta in ((1, 1), (3, 1), (3, -1)):
+                    if m.group(grp) is None:
+                        continue
+                    nn = int(m.group(grp)) + delta
+                    if nn < 0:
+                        continue
+                    new = code[:m.start(grp)] + str(nn) + code[m.end(grp):]
+                    cands.append({'file': rel, 'line': i + 1, 'orig': l, 'new': new + l[len(code):], 'op': f'range bound {m.group(grp)} -> {nn}'})
             # dropped check: `if cond {` whose body returns an error on the next line
             if re.match(r'\s*if .*\{\s*$', code):
                 cands.append({'file': rel, 'line': i + 1, 'orig': l, 'new': re.sub(r'if (.*)\{\s*$', r'if false && (\1) {', code, count=1), 'op': 'condition -> false'})
